@@ -409,7 +409,22 @@ def edit_inplace(g, gd, rng):
     order = RG.make(nodes, [tuple(e) for e in di], []).topological_order()
     pos = {v: i for i, v in enumerate(order)}
     op = rng.choice(["add_di", "add_di", "add_bi", "add_bi", "del_di", "del_bi", "add_node", "new_by_bi", "new_by_di",
-                     "rewire_bi", "rewire_bi", "rewire_di"])
+                     "rewire_bi", "rewire_bi", "rewire_di", "raw_add_di", "raw_add_di", "raw_add_bi"])
+    if op in ("raw_add_di", "raw_add_bi") and len(nodes) >= 2:
+        # an edge between existing nodes added through the networkx member directly (as removals are)
+        a, b = rng.sample(nodes, 2)
+        if op == "raw_add_di":
+            if pos[a] > pos[b]:
+                a, b = b, a
+            if [a, b] not in di:
+                g.directed.add_edge(Variable(a), Variable(b))
+                di.append([a, b])
+        elif [a, b] not in bi and [b, a] not in bi:
+            g.undirected.add_edge(Variable(a), Variable(b))
+            bi.append([a, b])
+        return {"nodes": nodes, "di": di, "bi": bi, "hostile": "edited"}
+    if op.startswith("raw_add"):
+        op = "add_di"
     if op == "rewire_bi" and bi and len(nodes) >= 3:
         # move a bidirected edge: the node and edge counts stay what they were
         a, b = bi.pop(rng.randrange(len(bi)))
